@@ -71,9 +71,11 @@ def container_axes(prog, fn, fn_node, name, line):
   if not isinstance(v, ast.Call):
     return None
   r = prog.resolve_call(fn, v)
-  if getattr(r, 'name', None) == '_unstack_nd' and len(v.args) >= 2 and \
-      isinstance(v.args[1], (ast.List, ast.Tuple)):
-    return ['lattice_sizes[%s]' % norm_text(d) for d in v.args[1].elts]
+  if getattr(r, 'name', None) == '_unstack_nd':
+    dims = v.args[1] if len(v.args) >= 2 else {
+        k.arg: k.value for k in v.keywords}.get('dims')
+    if isinstance(dims, (ast.List, ast.Tuple)):
+      return ['lattice_sizes[%s]' % norm_text(d) for d in dims.elts]
   ext = prog.ext_name(fn.module, v.func)
   if ext == 'tf.unstack':
     return ['len(%s)' % name]
